@@ -122,6 +122,19 @@ pub struct State {
 
 pub struct Inner {
     st: Mutex<State>,
+    /// read calls that have entered the backend and not yet returned; counted by the monitor itself,
+    /// incremented on entry (before the state lock) and decremented while the state lock is still
+    /// held, so close() -- which takes the same lock -- sees 0 unless a call really overlaps it
+    in_flight_reads: std::sync::atomic::AtomicU64,
+    /// simulated device latency of read(): the call has been made, the data is not yet accessed
+    slow_read_us: std::sync::atomic::AtomicU64,
+}
+
+struct ReadInFlight<'a>(&'a std::sync::atomic::AtomicU64);
+impl Drop for ReadInFlight<'_> {
+    fn drop(&mut self) {
+        self.0.fetch_sub(1, std::sync::atomic::Ordering::SeqCst);
+    }
 }
 
 #[derive(Clone)]
@@ -176,8 +189,15 @@ impl MonBackend {
                     sync_errors: Vec::new(),
                     sync_obs: std::collections::BTreeMap::new(),
                 }),
+                in_flight_reads: std::sync::atomic::AtomicU64::new(0),
+                slow_read_us: std::sync::atomic::AtomicU64::new(0),
             }),
         }
+    }
+
+    /// every read() from now on takes at least `us` microseconds before it touches the data
+    pub fn set_slow_reads(&self, us: u64) {
+        self.inner.slow_read_us.store(us, std::sync::atomic::Ordering::SeqCst);
     }
 
     pub fn lock(&self) -> MutexGuard<'_, State> {
@@ -288,7 +308,14 @@ impl StorageBackend for MonBackend {
     }
 
     fn read(&self, offset: u64, out: &mut [u8]) -> Result<(), io::Error> {
+        self.inner.in_flight_reads.fetch_add(1, std::sync::atomic::Ordering::SeqCst);
+        let us = self.inner.slow_read_us.load(std::sync::atomic::Ordering::Relaxed);
+        if us > 0 {
+            std::thread::sleep(std::time::Duration::from_micros(us));
+        }
         let mut st = self.lock();
+        // declared after `st`: dropped (decremented) before the state lock is released
+        let _in_flight = ReadInFlight(&self.inner.in_flight_reads);
         st.counts.read += 1;
         Self::enter(&mut st, K_READ, "read")?;
         let end = offset.checked_add(out.len() as u64);
@@ -442,6 +469,13 @@ impl StorageBackend for MonBackend {
     fn close(&self) -> Result<(), io::Error> {
         let mut st = self.lock();
         st.counts.close += 1;
+        let overlapping = self.inner.in_flight_reads.load(std::sync::atomic::Ordering::SeqCst);
+        if overlapping > 0 {
+            let n = st.name.clone();
+            st.violations.push(format!(
+                "backend[{n}] close() called while {overlapping} read call(s) made before it had not returned (the backend is touched after close())"
+            ));
+        }
         if st.closed {
             let n = st.name.clone();
             st.violations
